@@ -122,7 +122,7 @@ func Corpus() []Scenario {
 		{Name: "fetch-flags-body", K: 2, Ops: []Op{
 			sel(0, 0), sel(1, 0), app(0, 0), app(0, 0, 2), fb(0, "fetchflagsbody", 1, 2), cmd(0, "probe"), drain(1), cmd(1, "noop"), cmd(1, "probe"),
 			fb(1, "fetchflagsbody", 1), cmd(1, "probe")}},
-		{Name: "silent-store-on-own-held-readd", K: 1, Ops: []Op{ // known finding: expected to be reported as known
+		{Name: "silent-store-on-own-held-readd", K: 1, Ops: []Op{ // repaired (b461893): the own .SILENT store that reaches the new instance is announced
 			sel(0, 0), app(0, 0), fb(0, "fetchflagsbody", 1), cp(0, []int{1}, 0), store(0, []int{1}, "rem", false, 2), fb(0, "fetchbody", 1),
 			store(0, []int{1}, "add", true, 3), cmd(0, "noop"), cmd(0, "probe")}},
 		{Name: "own-overtakes-queued", K: 2, Ops: []Op{ // known finding D10: expected to be reported as known
